@@ -182,7 +182,7 @@ class Misc(Family):
 def variant_families(tier):
     fams = []
     full_upto = 7 if tier == 'quick' else 8
-    phs = ['tetrahedron', 'pyramid', 'prism', 'box', 'cut-cube', 'octahedron'] if tier == 'quick' else list(A.POLYHEDRA)
+    phs = ['tetrahedron', 'pyramid', 'prism', 'box', 'cut-cube', 'octahedron', 'skew-tetra', 'skew-prism'] if tier == 'quick' else list(A.POLYHEDRA)
     for pose in A.poses(tier):
         for name in A.POLYGONS:
             fams.append(PolygonPerms(name, pose, full_upto if pose.name in ('P0', 'P1') else 6))
